@@ -304,11 +304,17 @@ fn key_variants(base: usize, variant: usize) -> Node {
             1 => Node::scalar("a", Style::Double),
             _ => Node::scalar("a", Style::Single),
         },
-        1 => match variant % 2 {
+        1 => match variant % 3 {
             0 => s("b"),
-            _ => Node::scalar("b", Style::Double),
+            1 => Node::scalar("b", Style::Double),
+            _ => s("1"),
         },
-        2 => s("a").tagged("!t"),
+        2 => match variant % 3 {
+            0 => s("a").tagged("!t"),
+            // a core-schema tag is part of the key node too: `!!str a` is another key than `a`
+            1 => s("a").tagged("!!str"),
+            _ => s("1").tagged("!!str"),
+        },
         3 => Node::seq(true, vec![s("a"), s("b")]),
         4 => Node::map(true, vec![(s("a"), s("1"))]),
         _ => match variant % 2 {
